@@ -108,7 +108,11 @@ def run_one(sid, props):
             return out
         env = dict(os.environ, SDPVERIF_REPO=dst, SDPVERIF_EVIDENCE_DIR=os.path.join(tmp, "ev"))
         for p in props:
-            r = subprocess.run([PY, "-m", "sdpverif", "check", p, "--tier", "quick"], cwd=VERIF, env=env, capture_output=True, text=True)
+            try:
+                r = subprocess.run([PY, "-m", "sdpverif", "check", p, "--tier", "quick"], cwd=VERIF, env=env, capture_output=True, text=True, timeout=1500)
+            except subprocess.TimeoutExpired:
+                out["errors"][p] = "TIMEOUT (1500 s)"
+                continue
             if r.returncode == 1:
                 rules = []
                 lines = r.stdout.splitlines()
